@@ -1637,7 +1637,14 @@ class Walker:
                 and all(x[0] == "call" and x[1] == ("builtin", "len") and len(x[2]) == 1 and not x[3] for x in dom[2][0][1]):
             dom = ("call", ("builtin", "zip"), tuple(x[2][0] for x in dom[2][0][1]), ())
             zip_pos = True
-        skip = self._all_but_one(dom) if isinstance(s.target, ast.Name) else None
+        # `for r in [r for r in rs if keep(r)]: body` is `for r in rs: if keep(r): body` when the body leaves what keep reads
+        # alone (checked after the body was walked: otherwise the form is outside the fragment)
+        flt = None
+        if dom[0] == "listcomp" and len(dom[2]) == 1 and dom[2][0][2] and isinstance(s.target, ast.Name) and not s.orelse \
+                and dom[1] == ("iter", dom[2][0][0], dom[2][0][1]):
+            flt = (("iter", dom[2][0][0], dom[2][0][1]), tuple(dom[2][0][2]))
+            dom = dom[2][0][0]
+        skip = self._all_but_one(dom) if isinstance(s.target, ast.Name) and flt is None else None
         if skip is not None:
             dom = skip[0]
             # the builtin calls that spelt the domain are replaced by the canonical one
@@ -1702,7 +1709,27 @@ class Walker:
             g = mk_cmp("!=", skip[1], ("iter", dom, li.lid))
             self.guard_src.setdefault(g, (s.lineno, "for " + unparse(s.target) + " in " + unparse(s.iter), self.fnstack[-1]))
             self.guards.append((g, True))
+        n_flt = 0
+        if flt is not None:
+            me = ("iter", dom, li.lid)
+            sub = lambda t: me if t == flt[0] else (tuple(sub(x) if isinstance(x, tuple) else x for x in t) if isinstance(t, tuple) else t)
+            for c in flt[1]:
+                g = sub(c)
+                self.guard_src.setdefault(g, (s.lineno, "for " + unparse(s.target) + " in " + unparse(s.iter), self.fnstack[-1]))
+                self.guards.append((g, True))
+                n_flt += 1
+            n_body = len(self.events)
         self.block(s.body, env)
+        if flt is not None:
+            reads = {root_object(t) for c in flt[1] for t in subterms(c) if t[0] in ("idx", "attr")}
+            for e in self.events[n_body:]:
+                hit = (e.kind == "store" and root_object(e.target) in reads) or (
+                    e.kind == "call" and e.target is not None and e.target[0] == "attr" and root_object(e.target[1]) in reads
+                    and (e.name in CONTAINER_MUTATORS or self.call_writes(e.name or "")))
+                if hit:
+                    raise AnalysisError(f"{self.fnstack[-1].qual}:{s.lineno}: the loop runs over a list filtered beforehand while "
+                                        "its body writes what the filter reads; this form is outside the analysable fragment")
+            del self.guards[len(self.guards) - n_flt:]
         if skip is not None:
             self.guards.pop()
         self._merge_continues(env, names)
